@@ -92,12 +92,25 @@ def binding_inconsistent(rec):
     events, desc = rec["events"], rec["facts"]["desc"]
     d = lambda r: desc[r] if r < len(desc) else ("dead",)  # noqa: E731
 
-    def fits(ann, dv):
-        if isinstance(ann, str) and ann != "Array":
-            return dv[0] == "scalar" and dv[1] == ann
+    def shape_of(dv):
+        if dv[0] == "scalar":
+            return dv[1]
+        if dv[0] == "array":
+            return ["Array", dv[3]] if len(dv) > 3 else ["Array", dv[2]]
+        return dv[0]
+
+    def fits_shape(ann, sh):
         if ann == "Array":
-            return dv[0] == "array"
-        return dv[0] == "array" and isinstance(ann[1], str) and dv[2] == ann[1]
+            return isinstance(sh, list)
+        if isinstance(ann, str):
+            return sh == ann
+        return isinstance(sh, list) and fits_shape(ann[1], sh[1])
+
+    def fits(ann, dv):
+        return fits_shape(ann, shape_of(dv))
+
+    def elem_shape(da):
+        return da[3] if len(da) > 3 else da[2]
 
     reg, stack, defs = 0, [], {}
     for ev, res in zip(events, rec["real"]):
@@ -118,11 +131,11 @@ def binding_inconsistent(rec):
                     return True
             elif op == "map":
                 da = d(c["a"])
-                if len(params) != 1 or da[0] != "array" or not fits(params[0][1], ("scalar", da[2])):
+                if len(params) != 1 or da[0] != "array" or not fits_shape(params[0][1], elem_shape(da)):
                     return True
             else:
                 da, di = d(c["a"]), d(c["init"])
-                if len(params) != 2 or da[0] != "array" or not fits(params[1][1], ("scalar", da[2])) \
+                if len(params) != 2 or da[0] != "array" or not fits_shape(params[1][1], elem_shape(da)) \
                         or not fits(params[0][1], di) or params[0][1] != ret:
                     return True
         reg += len(c["params"]) if op == "beginFn" else 1
